@@ -8,12 +8,15 @@
    HASHTABLE: C17_dictionary_hashtable below is about the POINTER-LEVEL model (layer B, repaired code): it is
    obtained from the layer-A theorem and the proof that layer B refines layer A (MapHashProofs2.v: representation
    invariant [Good]: bucket lists = layer A's entry order, refcount 1, no removed node, live cells, count).
-   SKIPLIST: still PARTIAL - the theorems named `_partial` are about layer A; that the skiplist's pointer-level
-   model refines layer A is checked by correspondence only; about its layer B the refutations of the unrepaired
-   code and the witnesses for the repaired code are proved. *)
+   SKIPLIST: C17_dictionary_skiplist below is about the POINTER-LEVEL model too (layer B, repaired code, nodes with
+   separately allocated forward arrays, EVERY sequence of random() answers = every assignment of levels):
+   MapSkipProofs2.v proves that it refines layer A (invariant [SGood]: the level-0 chain is strictly ascending and
+   is layer A's entry list, the level-l chain is the sub-chain of the nodes of level >= l, every node owns a live
+   array, reference counts 1, list level bounds all node levels, length = number of entries).
+   The theorems named `_partial` are the layer-A statements both containers' theorems are obtained from. *)
 From Coq Require Import ZArith List NArith Bool.
 Require Import Verif.gen.Consts_map Verif.MapSpec Verif.MapHashModel Verif.MapSkipModel Verif.MapRefModel
-  Verif.MapRefProofs Verif.MapHashProofs Verif.MapHashProofs2 Verif.MapSkipProofs.
+  Verif.MapRefProofs Verif.MapHashProofs Verif.MapHashProofs2 Verif.MapSkipProofs Verif.MapSkipProofs2.
 Import ListNotations.
 
 (* constants regenerated from /repo: the event bits of qbmap.h are the ones the specification uses; count/length
@@ -66,6 +69,30 @@ Print Assumptions C17_hashtable_traversal_once.
 Theorem C17_hashtable_refines_layerA : forall hf rc s o, Good hf s -> is_iter_op o = false -> step_ok hf rc s o.
 Proof. exact hash_step_ok. Qed.
 Print Assumptions C17_hashtable_refines_layerA.
+
+(* SKIPLIST, pointer-level model (MapSkipModel.v, repaired variant), every return-code tuple, EVERY level oracle (the
+   random() answers each put consumes are part of the history): for every history of put/get/rm/count/foreach(stop)/
+   notify_add/notify_del(_2)/destroy no operation reaches an error state and each output and each operation's notifier
+   calls equal the dictionary specification's (count modulo 2^64; the specification's traversal order is the level-0
+   chain, which C17_skiplist_ascending shows to be strictly ascending by key) *)
+Theorem C17_dictionary_skiplist : forall rc ops, no_iter_ops_k ops = true -> ks_lockstep rc k_create [] s_init ops.
+Proof. exact skip_c17. Qed.
+Print Assumptions C17_dictionary_skiplist.
+
+Theorem C17_skiplist_no_error : forall ops, no_iter_ops_k ops = true -> snd (k_run kv_fixed k_create ops) = None.
+Proof. exact skip_c17_no_error. Qed.
+Print Assumptions C17_skiplist_no_error.
+
+Theorem C17_skiplist_ascending : forall s C0, SGood s C0 ->
+  Sorted.StronglySorted (fun a b => key_ltb (fst a) (fst b) = true) (live_kv (kabs s C0)).
+Proof. exact skip_traversal_ascending. Qed.
+Print Assumptions C17_skiplist_ascending.
+
+(* every API call from a well-formed skiplist, for every oracle answer list: succeeds, equals the layer-A step on
+   the abstraction, keeps the structure well formed *)
+Theorem C17_skiplist_refines_layerA : forall rc s C0 o orc, SGood s C0 -> is_iter_op o = false -> kstep_ok rc s C0 o orc.
+Proof. exact skip_step_ok. Qed.
+Print Assumptions C17_skiplist_refines_layerA.
 
 (* the same, one step from ANY state related to a specification state (the simulation itself) *)
 Theorem C17_simulation_step_partial : forall before rc r sp o, Inv17 r sp -> is_iter_op o = false ->
